@@ -1,11 +1,12 @@
-(* Proofs about Codec/ItemCodec.v (model of pkg/vm/stackitem/serialization.go):
+(* Proofs about Codec/ItemCodec.v (model of pkg/vm/stackitem/serialization.go), generic in the mode
+   [prot] (false = Serialize/Deserialize, true = EncodeBinaryProtected/DecodeBinaryProtected):
    A. the stateful serialiser [ser] against the pure encoding [enc_item] (size_eq / limits of Serialize);
-   B. well-formed items [item_wf];
+   B. well-formed items [item_wf] (normal mode) and [item_wf_p] (protected mode);
    C. round-trip with the item budget threaded (Deserialize (Serialize i) = i);
    D. decoded items are well-formed and within the item budget (alloc/count bounded);
    E. decode_canonical: what Deserialize accepts re-serialises (never longer) and decodes to the same item;
    F. fuel: more fuel never changes a result, beyond the input length it changes nothing (decode_total);
-   G. examples (findings F11, F17, F28; duplicate keys; non-canonical boolean). *)
+   G. examples (findings F11, F17, F28; duplicate keys; non-canonical boolean; protected mode). *)
 From NG Require Import Common.Tactics Codec.Bigint Codec.BigintProofs Codec.Wire Codec.WireProofs Codec.ItemCodec.
 Open Scope Z_scope.
 
@@ -23,6 +24,9 @@ Section ItemInd.
   Hypothesis Harray : forall l, Forall P l -> P (IArray l).
   Hypothesis Hstruct : forall l, Forall P l -> P (IStruct l).
   Hypothesis Hmap : forall l, Forall (fun kv => P (fst kv) /\ P (snd kv)) l -> P (IMap l).
+  Hypothesis Hinterop : P IInterop.
+  Hypothesis Hpointer : forall pos, P (IPointer pos).
+  Hypothesis Hinvalid : P IInvalid.
 
   Fixpoint item_ind' (i : item) : P i :=
     match i with
@@ -47,6 +51,9 @@ Section ItemInd.
                           | (k, v) => conj (item_ind' k) (item_ind' v)
                           end) (go t)
                    end) l)
+    | IInterop => Hinterop
+    | IPointer pos => Hpointer pos
+    | IInvalid => Hinvalid
     end.
 End ItemInd.
 
@@ -59,16 +66,32 @@ Fixpoint count_list (l : list item) : nat :=
   match l with [] => O | x :: t => (count_item x + count_list t)%nat end.
 Fixpoint count_pairs (l : list (item * item)) : nat :=
   match l with [] => O | (k, v) :: t => (count_item k + count_item v + count_pairs t)%nat end.
-Fixpoint ser_list (l : list item) (st : list Z * nat) : option (list Z * nat) :=
-  match l with [] => Some st | x :: t => match ser x st with Some st' => ser_list t st' | None => None end end.
-Fixpoint ser_pairs (l : list (item * item)) (st : list Z * nat) : option (list Z * nat) :=
-  match l with
-  | [] => Some st
-  | (k, v) :: t => match ser k st with
-                   | Some st' => match ser v st' with Some st'' => ser_pairs t st'' | None => None end
-                   | None => None
-                   end
+Definition ser_list (prot : bool) : list item -> list Z * nat -> option (list Z * nat) :=
+  fix sl (l : list item) (st : list Z * nat) : option (list Z * nat) :=
+    match l with [] => Some st | x :: t => match ser prot x st with Some st' => sl t st' | None => None end end.
+Definition ser_pairs (prot : bool) : list (item * item) -> list Z * nat -> option (list Z * nat) :=
+  fix sl (l : list (item * item)) (st : list Z * nat) : option (list Z * nat) :=
+    match l with
+    | [] => Some st
+    | (k, v) :: t => match ser prot k st with
+                     | Some st' => match ser prot v st' with Some st'' => sl t st'' | None => None end
+                     | None => None
+                     end
+    end.
+Lemma ser_list_nil prot st : ser_list prot [] st = Some st.
+Proof. reflexivity. Qed.
+Lemma ser_list_cons prot x t st :
+  ser_list prot (x :: t) st = match ser prot x st with Some st' => ser_list prot t st' | None => None end.
+Proof. reflexivity. Qed.
+Lemma ser_pairs_nil prot st : ser_pairs prot [] st = Some st.
+Proof. reflexivity. Qed.
+Lemma ser_pairs_cons prot k v t st :
+  ser_pairs prot ((k, v) :: t) st =
+  match ser prot k st with
+  | Some st' => match ser prot v st' with Some st'' => ser_pairs prot t st'' | None => None end
+  | None => None
   end.
+Proof. reflexivity. Qed.
 
 Lemma enc_item_array l : enc_item (IArray l) = 64 :: write_varuint (Z.of_nat (length l)) ++ enc_list l.
 Proof. reflexivity. Qed.
@@ -89,20 +112,44 @@ Definition after (r : option (list Z * nat)) : option (list Z * nat) :=
   | Some (d, l) => if max_size <? Z.of_nat (length d) then None else Some (d, l)
   | None => None
   end.
-Definition ser_body (i : item) (data : list Z) (lim' : nat) : option (list Z * nat) :=
+Definition ser_body (prot : bool) (i : item) (data : list Z) (lim' : nat) : option (list Z * nat) :=
   match i with
   | IAny => Some (data ++ [0], lim')
   | IBool b => Some (data ++ 32 :: write_bool b, lim')
   | IInt z => Some (data ++ 33 :: Z.of_nat (length (to_bytes z)) :: to_bytes z, lim')
   | IBytes b => Some (data ++ 40 :: write_varbytes b, lim')
   | IBuffer b => Some (data ++ 48 :: write_varbytes b, lim')
-  | IArray l => ser_list l (data ++ 64 :: write_varuint (Z.of_nat (length l)), lim')
-  | IStruct l => ser_list l (data ++ 65 :: write_varuint (Z.of_nat (length l)), lim')
-  | IMap l => ser_pairs l (data ++ 72 :: write_varuint (Z.of_nat (length l)), lim')
+  | IArray l => ser_list prot l (data ++ 64 :: write_varuint (Z.of_nat (length l)), lim')
+  | IStruct l => ser_list prot l (data ++ 65 :: write_varuint (Z.of_nat (length l)), lim')
+  | IMap l => ser_pairs prot l (data ++ 72 :: write_varuint (Z.of_nat (length l)), lim')
+  | IInterop => if prot then Some (data ++ [96], lim') else None
+  | IPointer pos => if prot then Some (data ++ 16 :: write_varuint pos, lim') else None
+  | IInvalid => if prot then Some (data ++ [255], lim') else None
   end.
-Lemma ser_eq i data lim :
-  ser i (data, lim) = match lim with O => None | S lim' => after (ser_body i data lim') end.
-Proof. destruct lim; destruct i; reflexivity. Qed.
+Lemma ser_eq prot i data lim :
+  ser prot i (data, lim) = match lim with O => None | S lim' => after (ser_body prot i data lim') end.
+Proof. destruct lim; destruct i; try reflexivity; destruct prot; reflexivity. Qed.
+
+
+(* no protected-mode constructor anywhere in the item *)
+Fixpoint plain (i : item) : bool :=
+  match i with
+  | IInterop | IPointer _ | IInvalid => false
+  | IArray l | IStruct l => (fix pl (l : list item) := match l with [] => true | x :: t => plain x && pl t end) l
+  | IMap l => (fix pl (l : list (item * item)) := match l with [] => true | (k, v) :: t => plain k && plain v && pl t end) l
+  | _ => true
+  end.
+Fixpoint plain_list (l : list item) : bool := match l with [] => true | x :: t => plain x && plain_list t end.
+Fixpoint plain_pairs (l : list (item * item)) : bool :=
+  match l with [] => true | (k, v) :: t => plain k && plain v && plain_pairs t end.
+Lemma plain_array l : plain (IArray l) = plain_list l.
+Proof. reflexivity. Qed.
+Lemma plain_struct l : plain (IStruct l) = plain_list l.
+Proof. reflexivity. Qed.
+Lemma plain_map l : plain (IMap l) = plain_pairs l.
+Proof. reflexivity. Qed.
+(* the mode accepts the item's constructors *)
+Definition mode_ok (prot : bool) (i : item) : bool := prot || plain i.
 
 (* ================= A. the serialiser against the pure encoding ================= *)
 Lemma count_item_pos i : (1 <= count_item i)%nat.
@@ -123,129 +170,197 @@ Qed.
 Lemma after_ok d l : Z.of_nat (length d) <= max_size -> after (Some (d, l)) = Some (d, l).
 Proof. intros H. unfold after. now replace (max_size <? Z.of_nat (length d)) with false by lia. Qed.
 
-Definition ser_some_P (i : item) : Prop :=
-  forall data lim d' lim', ser i (data, lim) = Some (d', lim') ->
-    d' = data ++ enc_item i /\ (lim' + count_item i = lim)%nat /\ Z.of_nat (length d') <= max_size.
-Definition ser_ok_P (i : item) : Prop :=
-  forall data lim, (count_item i <= lim)%nat -> Z.of_nat (length data + length (enc_item i)) <= max_size ->
-    ser i (data, lim) = Some (data ++ enc_item i, (lim - count_item i)%nat).
+Definition ser_some_P (prot : bool) (i : item) : Prop :=
+  forall data lim d' lim', ser prot i (data, lim) = Some (d', lim') ->
+    d' = data ++ enc_item i /\ (lim' + count_item i = lim)%nat /\ Z.of_nat (length d') <= max_size /\
+    mode_ok prot i = true.
+Definition ser_ok_P (prot : bool) (i : item) : Prop :=
+  forall data lim, mode_ok prot i = true -> (count_item i <= lim)%nat ->
+    Z.of_nat (length data + length (enc_item i)) <= max_size ->
+    ser prot i (data, lim) = Some (data ++ enc_item i, (lim - count_item i)%nat).
 
-Lemma ser_list_some l : Forall ser_some_P l ->
-  forall data lim d' lim', ser_list l (data, lim) = Some (d', lim') ->
-    d' = data ++ enc_list l /\ (lim' + count_list l = lim)%nat.
+Lemma mode_ok_list prot x t : prot || (plain x && plain_list t) = mode_ok prot x && (prot || plain_list t).
+Proof. unfold mode_ok. destruct prot, (plain x), (plain_list t); reflexivity. Qed.
+Lemma mode_ok_pairs prot k v t :
+  prot || (plain k && plain v && plain_pairs t) = mode_ok prot k && mode_ok prot v && (prot || plain_pairs t).
+Proof. unfold mode_ok. destruct prot, (plain k), (plain v), (plain_pairs t); reflexivity. Qed.
+
+Lemma ser_list_some prot l : Forall (ser_some_P prot) l ->
+  forall data lim d' lim', ser_list prot l (data, lim) = Some (d', lim') ->
+    d' = data ++ enc_list l /\ (lim' + count_list l = lim)%nat /\ prot || plain_list l = true.
 Proof.
-  induction 1 as [|x t Hx Ht IH]; intros data lim d' lim' H; cbn [ser_list enc_list count_list] in *.
-  - inv H. rewrite app_nil_r. split; [reflexivity|lia].
-  - destruct (ser x (data, lim)) as [[d1 l1]|] eqn:E; [|discriminate].
-    apply Hx in E as (-> & Hl & _). apply IH in H as (-> & Hl2).
-    rewrite app_assoc. split; [reflexivity|lia].
+  induction 1 as [|x t Hx Ht IH]; intros data lim d' lim' H; cbn [enc_list count_list plain_list] in *.
+  - rewrite ser_list_nil in H. inv H. rewrite app_nil_r. split; [reflexivity|]. split; [lia|apply orb_true_r].
+  - rewrite ser_list_cons in H. destruct (ser prot x (data, lim)) as [[d1 l1]|] eqn:E; [|discriminate].
+    apply Hx in E as (-> & Hl & _ & Hm). apply IH in H as (-> & Hl2 & Hm2).
+    rewrite app_assoc. split; [reflexivity|]. split; [lia|]. rewrite mode_ok_list, Hm, Hm2. reflexivity.
 Qed.
-Lemma ser_pairs_some l : Forall (fun kv => ser_some_P (fst kv) /\ ser_some_P (snd kv)) l ->
-  forall data lim d' lim', ser_pairs l (data, lim) = Some (d', lim') ->
-    d' = data ++ enc_pairs l /\ (lim' + count_pairs l = lim)%nat.
+Lemma ser_pairs_some prot l : Forall (fun kv => ser_some_P prot (fst kv) /\ ser_some_P prot (snd kv)) l ->
+  forall data lim d' lim', ser_pairs prot l (data, lim) = Some (d', lim') ->
+    d' = data ++ enc_pairs l /\ (lim' + count_pairs l = lim)%nat /\ prot || plain_pairs l = true.
 Proof.
-  induction 1 as [|[k v] t [Hk Hv] Ht IH]; intros data lim d' lim' H; cbn [ser_pairs enc_pairs count_pairs fst snd] in *.
-  - inv H. rewrite app_nil_r. split; [reflexivity|lia].
-  - destruct (ser k (data, lim)) as [[d1 l1]|] eqn:E1; [|discriminate].
-    destruct (ser v (d1, l1)) as [[d2 l2]|] eqn:E2; [|discriminate].
-    apply Hk in E1 as (-> & Hl1 & _). apply Hv in E2 as (-> & Hl2 & _). apply IH in H as (-> & Hl3).
-    rewrite !app_assoc. split; [reflexivity|lia].
+  induction 1 as [|[k v] t [Hk Hv] Ht IH]; intros data lim d' lim' H; cbn [enc_pairs count_pairs plain_pairs fst snd] in *.
+  - rewrite ser_pairs_nil in H. inv H. rewrite app_nil_r. split; [reflexivity|]. split; [lia|apply orb_true_r].
+  - rewrite ser_pairs_cons in H. destruct (ser prot k (data, lim)) as [[d1 l1]|] eqn:E1; [|discriminate].
+    destruct (ser prot v (d1, l1)) as [[d2 l2]|] eqn:E2; [|discriminate].
+    apply Hk in E1 as (-> & Hl1 & _ & Hm1). apply Hv in E2 as (-> & Hl2 & _ & Hm2). apply IH in H as (-> & Hl3 & Hm3).
+    rewrite !app_assoc. split; [reflexivity|]. split; [lia|]. rewrite mode_ok_pairs, Hm1, Hm2, Hm3. reflexivity.
 Qed.
 
-Lemma ser_some_all i : ser_some_P i.
+Lemma ser_some_all prot i : ser_some_P prot i.
 Proof.
-  induction i as [| | | | |l IHl|l IHl|l IHl] using item_ind'; intros data lim d' lim' H; rewrite ser_eq in H;
+  induction i as [| | | | |l IHl|l IHl|l IHl| | |] using item_ind'; intros data lim d' lim' H; rewrite ser_eq in H;
     (destruct lim as [|lim0]; [discriminate|]); apply after_some in H as [H Hsz]; cbn [ser_body] in H.
-  1-5: inv H; cbn [count_item]; split; [reflexivity|split; [lia|exact Hsz]].
-  - apply ser_list_some in H as [-> Hl]; [|assumption]. rewrite enc_item_array, count_item_array.
-    rewrite <- app_assoc. split; [reflexivity|split; [lia|]]. now rewrite <- app_assoc in Hsz.
-  - apply ser_list_some in H as [-> Hl]; [|assumption]. rewrite enc_item_struct, count_item_struct.
-    rewrite <- app_assoc. split; [reflexivity|split; [lia|]]. now rewrite <- app_assoc in Hsz.
-  - apply ser_pairs_some in H as [-> Hl]; [|assumption]. rewrite enc_item_map, count_item_map.
-    rewrite <- app_assoc. split; [reflexivity|split; [lia|]]. now rewrite <- app_assoc in Hsz.
+  1-5: inv H; cbn [count_item]; split; [reflexivity|split; [lia|split; [exact Hsz|apply orb_true_r]]].
+  - apply ser_list_some in H as (-> & Hl & Hm); [|assumption]. rewrite enc_item_array, count_item_array.
+    rewrite <- app_assoc. split; [reflexivity|split; [lia|]]. rewrite <- app_assoc in Hsz. split; assumption.
+  - apply ser_list_some in H as (-> & Hl & Hm); [|assumption]. rewrite enc_item_struct, count_item_struct.
+    rewrite <- app_assoc. split; [reflexivity|split; [lia|]]. rewrite <- app_assoc in Hsz. split; assumption.
+  - apply ser_pairs_some in H as (-> & Hl & Hm); [|assumption]. rewrite enc_item_map, count_item_map.
+    rewrite <- app_assoc. split; [reflexivity|split; [lia|]]. rewrite <- app_assoc in Hsz. split; assumption.
+  - destruct prot; [|discriminate]. inv H. cbn [count_item]. split; [reflexivity|split; [lia|split; [exact Hsz|reflexivity]]].
+  - destruct prot; [|discriminate]. inv H. cbn [count_item]. split; [reflexivity|split; [lia|split; [exact Hsz|reflexivity]]].
+  - destruct prot; [|discriminate]. inv H. cbn [count_item]. split; [reflexivity|split; [lia|split; [exact Hsz|reflexivity]]].
 Qed.
 
-Lemma ser_list_ok l : Forall ser_ok_P l ->
-  forall data lim, (count_list l <= lim)%nat -> Z.of_nat (length data + length (enc_list l)) <= max_size ->
-    ser_list l (data, lim) = Some (data ++ enc_list l, (lim - count_list l)%nat).
+Lemma ser_list_ok prot l : Forall (ser_ok_P prot) l ->
+  forall data lim, prot || plain_list l = true -> (count_list l <= lim)%nat ->
+    Z.of_nat (length data + length (enc_list l)) <= max_size ->
+    ser_list prot l (data, lim) = Some (data ++ enc_list l, (lim - count_list l)%nat).
 Proof.
-  induction 1 as [|x t Hx Ht IH]; intros data lim Hc Hs; cbn [ser_list enc_list count_list] in *.
-  - rewrite app_nil_r, Nat.sub_0_r. reflexivity.
-  - rewrite app_length in Hs. rewrite Hx by lia. rewrite IH by (rewrite ?app_length; lia).
+  induction 1 as [|x t Hx Ht IH]; intros data lim Hm Hc Hs; cbn [enc_list count_list plain_list] in *.
+  - rewrite ser_list_nil, app_nil_r, Nat.sub_0_r. reflexivity.
+  - rewrite mode_ok_list in Hm. apply andb_true_iff in Hm as [Hm1 Hm2].
+    rewrite app_length in Hs. rewrite ser_list_cons, Hx by (assumption || lia).
+    rewrite IH by (rewrite ?app_length; (assumption || lia)).
     rewrite app_assoc. do 2 f_equal. lia.
 Qed.
-Lemma ser_pairs_ok l : Forall (fun kv => ser_ok_P (fst kv) /\ ser_ok_P (snd kv)) l ->
-  forall data lim, (count_pairs l <= lim)%nat -> Z.of_nat (length data + length (enc_pairs l)) <= max_size ->
-    ser_pairs l (data, lim) = Some (data ++ enc_pairs l, (lim - count_pairs l)%nat).
+Lemma ser_pairs_ok prot l : Forall (fun kv => ser_ok_P prot (fst kv) /\ ser_ok_P prot (snd kv)) l ->
+  forall data lim, prot || plain_pairs l = true -> (count_pairs l <= lim)%nat ->
+    Z.of_nat (length data + length (enc_pairs l)) <= max_size ->
+    ser_pairs prot l (data, lim) = Some (data ++ enc_pairs l, (lim - count_pairs l)%nat).
 Proof.
-  induction 1 as [|[k v] t [Hk Hv] Ht IH]; intros data lim Hc Hs; cbn [ser_pairs enc_pairs count_pairs fst snd] in *.
-  - rewrite app_nil_r, Nat.sub_0_r. reflexivity.
-  - rewrite !app_length in Hs. rewrite Hk by lia. rewrite Hv by (rewrite ?app_length; lia).
-    rewrite IH by (rewrite ?app_length; lia). rewrite !app_assoc. do 2 f_equal. lia.
+  induction 1 as [|[k v] t [Hk Hv] Ht IH]; intros data lim Hm Hc Hs; cbn [enc_pairs count_pairs plain_pairs fst snd] in *.
+  - rewrite ser_pairs_nil, app_nil_r, Nat.sub_0_r. reflexivity.
+  - rewrite mode_ok_pairs in Hm. apply andb_true_iff in Hm as [Hm Hm3]. apply andb_true_iff in Hm as [Hm1 Hm2].
+    rewrite !app_length in Hs. rewrite ser_pairs_cons, Hk by (assumption || lia).
+    rewrite Hv by (rewrite ?app_length; (assumption || lia)).
+    rewrite IH by (rewrite ?app_length; (assumption || lia)). rewrite !app_assoc. do 2 f_equal. lia.
 Qed.
 
-Lemma ser_ok_all i : ser_ok_P i.
+Lemma ser_ok_all prot i : ser_ok_P prot i.
 Proof.
-  induction i as [| | | | |l IHl|l IHl|l IHl] using item_ind'; intros data lim Hc Hs; rewrite ser_eq;
+  induction i as [| | | | |l IHl|l IHl|l IHl| | |] using item_ind'; intros data lim Hm Hc Hs; rewrite ser_eq;
     (destruct lim as [|lim0]; [cbn [count_item] in Hc; lia|]); cbn [ser_body].
   1-5: rewrite after_ok by (rewrite app_length; exact Hs); cbn [count_item]; do 2 f_equal; lia.
-  - rewrite enc_item_array, count_item_array in *. cbn [length] in Hs. rewrite app_length in Hs.
+  - unfold mode_ok in Hm. rewrite plain_array in Hm.
+    rewrite enc_item_array, count_item_array in *. cbn [length] in Hs. rewrite app_length in Hs.
     pose proof (write_varuint_length (Z.of_nat (length l))).
-    rewrite ser_list_ok; [|assumption|lia|rewrite app_length; cbn [length]; lia].
+    rewrite ser_list_ok; [|assumption|assumption|lia|rewrite app_length; cbn [length]; lia].
     rewrite <- app_assoc. cbn [app]. rewrite after_ok; [do 2 f_equal; lia|].
     rewrite !app_length. cbn [length]. rewrite app_length. lia.
-  - rewrite enc_item_struct, count_item_struct in *. cbn [length] in Hs. rewrite app_length in Hs.
+  - unfold mode_ok in Hm. rewrite plain_struct in Hm.
+    rewrite enc_item_struct, count_item_struct in *. cbn [length] in Hs. rewrite app_length in Hs.
     pose proof (write_varuint_length (Z.of_nat (length l))).
-    rewrite ser_list_ok; [|assumption|lia|rewrite app_length; cbn [length]; lia].
+    rewrite ser_list_ok; [|assumption|assumption|lia|rewrite app_length; cbn [length]; lia].
     rewrite <- app_assoc. cbn [app]. rewrite after_ok; [do 2 f_equal; lia|].
     rewrite !app_length. cbn [length]. rewrite app_length. lia.
-  - rewrite enc_item_map, count_item_map in *. cbn [length] in Hs. rewrite app_length in Hs.
+  - unfold mode_ok in Hm. rewrite plain_map in Hm.
+    rewrite enc_item_map, count_item_map in *. cbn [length] in Hs. rewrite app_length in Hs.
     pose proof (write_varuint_length (Z.of_nat (length l))).
-    rewrite ser_pairs_ok; [|assumption|lia|rewrite app_length; cbn [length]; lia].
+    rewrite ser_pairs_ok; [|assumption|assumption|lia|rewrite app_length; cbn [length]; lia].
     rewrite <- app_assoc. cbn [app]. rewrite after_ok; [do 2 f_equal; lia|].
     rewrite !app_length. cbn [length]. rewrite app_length. lia.
+  - destruct prot; [|discriminate]. rewrite after_ok by (rewrite app_length; exact Hs). cbn [count_item]. do 2 f_equal. lia.
+  - destruct prot; [|discriminate]. rewrite after_ok by (rewrite app_length; exact Hs). cbn [count_item]. do 2 f_equal. lia.
+  - destruct prot; [|discriminate]. rewrite after_ok by (rewrite app_length; exact Hs). cbn [count_item]. do 2 f_equal. lia.
 Qed.
 
-(* what a successful run wrote, how much budget it used, and the size bound *)
-Theorem ser_some i data lim d' lim' :
-  ser i (data, lim) = Some (d', lim') ->
-  d' = data ++ enc_item i /\ (lim' + count_item i = lim)%nat /\ Z.of_nat (length d') <= max_size.
+(* --- generic in the mode --- *)
+Theorem ser_some_gen prot i data lim d' lim' :
+  ser prot i (data, lim) = Some (d', lim') ->
+  d' = data ++ enc_item i /\ (lim' + count_item i = lim)%nat /\ Z.of_nat (length d') <= max_size /\ mode_ok prot i = true.
 Proof. apply ser_some_all. Qed.
-(* enough budget and a final size within MaxSize suffice: the intermediate checks are implied *)
-Theorem ser_ok i data lim :
-  (count_item i <= lim)%nat -> Z.of_nat (length data + length (enc_item i)) <= max_size ->
-  ser i (data, lim) = Some (data ++ enc_item i, (lim - count_item i)%nat).
+Theorem ser_ok_gen prot i data lim :
+  mode_ok prot i = true -> (count_item i <= lim)%nat -> Z.of_nat (length data + length (enc_item i)) <= max_size ->
+  ser prot i (data, lim) = Some (data ++ enc_item i, (lim - count_item i)%nat).
 Proof. apply ser_ok_all. Qed.
-(* complete characterisation *)
-Theorem ser_spec i data lim :
-  ser i (data, lim) =
-  if (count_item i <=? lim)%nat && (Z.of_nat (length data + length (enc_item i)) <=? max_size)
+(* complete characterisation: the mode admits the constructors, the item budget and the size suffice *)
+Theorem ser_spec_gen prot i data lim :
+  ser prot i (data, lim) =
+  if mode_ok prot i && (count_item i <=? lim)%nat && (Z.of_nat (length data + length (enc_item i)) <=? max_size)
   then Some (data ++ enc_item i, (lim - count_item i)%nat) else None.
 Proof.
-  destruct (ser i (data, lim)) as [[d' lim']|] eqn:E.
-  - apply ser_some in E as (-> & Hl & Hs). rewrite app_length in Hs.
+  destruct (ser prot i (data, lim)) as [[d' lim']|] eqn:E.
+  - apply ser_some_gen in E as (-> & Hl & Hs & Hm). rewrite app_length in Hs. rewrite Hm.
     replace (count_item i <=? lim)%nat with true by lia.
     replace (Z.of_nat (length data + length (enc_item i)) <=? max_size) with true by lia.
     cbn [andb]. do 2 f_equal. lia.
-  - case_if; [|reflexivity]. rewrite ser_ok in E by lia. discriminate.
+  - case_if; [|reflexivity]. apply andb_true_iff in Heqb as [Hb Hs]. apply andb_true_iff in Hb as [Hm Hc].
+    rewrite ser_ok_gen in E by (assumption || lia). discriminate.
 Qed.
+Theorem serialize_gen_some prot i bs :
+  serialize_gen prot i = Some bs ->
+  bs = enc_item i /\ (count_item i <= max_items)%nat /\ Z.of_nat (length bs) <= max_size /\ mode_ok prot i = true.
+Proof.
+  unfold serialize_gen. destruct (ser prot i ([], max_items)) as [[d l]|] eqn:E; [|discriminate].
+  intros H; inv H. apply ser_some_gen in E as (-> & Hl & Hs & Hm). cbn [app] in *.
+  split; [reflexivity|]. split; [lia|]. split; assumption.
+Qed.
+Theorem serialize_gen_ok prot i :
+  mode_ok prot i = true -> (count_item i <= max_items)%nat -> Z.of_nat (length (enc_item i)) <= max_size ->
+  serialize_gen prot i = Some (enc_item i).
+Proof. intros Hm Hc Hs. unfold serialize_gen. rewrite ser_ok_gen by (cbn [length]; (assumption || lia)). reflexivity. Qed.
+Theorem serialize_gen_spec prot i :
+  serialize_gen prot i =
+  if mode_ok prot i && (count_item i <=? max_items)%nat && (Z.of_nat (length (enc_item i)) <=? max_size)
+  then Some (enc_item i) else None.
+Proof. unfold serialize_gen. rewrite ser_spec_gen. cbn [length app Nat.add]. case_if; reflexivity. Qed.
 
+(* --- normal mode (Serialize) --- *)
+Theorem ser_some i data lim d' lim' :
+  ser false i (data, lim) = Some (d', lim') ->
+  d' = data ++ enc_item i /\ (lim' + count_item i = lim)%nat /\ Z.of_nat (length d') <= max_size.
+Proof. intros H. apply ser_some_gen in H. tauto. Qed.
+Theorem ser_ok i data lim :
+  plain i = true -> (count_item i <= lim)%nat -> Z.of_nat (length data + length (enc_item i)) <= max_size ->
+  ser false i (data, lim) = Some (data ++ enc_item i, (lim - count_item i)%nat).
+Proof. intros Hp. apply ser_ok_gen. exact Hp. Qed.
+Theorem ser_spec i data lim :
+  ser false i (data, lim) =
+  if plain i && (count_item i <=? lim)%nat && (Z.of_nat (length data + length (enc_item i)) <=? max_size)
+  then Some (data ++ enc_item i, (lim - count_item i)%nat) else None.
+Proof. exact (ser_spec_gen false i data lim). Qed.
 Theorem serialize_some i bs :
   serialize i = Some bs -> bs = enc_item i /\ (count_item i <= max_items)%nat /\ Z.of_nat (length bs) <= max_size.
-Proof.
-  unfold serialize. destruct (ser i ([], max_items)) as [[d l]|] eqn:E; [|discriminate].
-  intros H; inv H. apply ser_some in E as (-> & Hl & Hs). cbn [app] in *. split; [reflexivity|]. split; [lia|exact Hs].
-Qed.
+Proof. intros H. apply serialize_gen_some in H. tauto. Qed.
+Theorem serialize_plain i bs : serialize i = Some bs -> plain i = true.
+Proof. intros H. apply serialize_gen_some in H. tauto. Qed.
 Theorem serialize_ok i :
-  (count_item i <= max_items)%nat -> Z.of_nat (length (enc_item i)) <= max_size -> serialize i = Some (enc_item i).
-Proof. intros Hc Hs. unfold serialize. rewrite ser_ok by (cbn [length]; lia). reflexivity. Qed.
+  plain i = true -> (count_item i <= max_items)%nat -> Z.of_nat (length (enc_item i)) <= max_size ->
+  serialize i = Some (enc_item i).
+Proof. intros Hp. apply serialize_gen_ok. exact Hp. Qed.
 Theorem serialize_spec i :
+  serialize i = if plain i && (count_item i <=? max_items)%nat && (Z.of_nat (length (enc_item i)) <=? max_size)
+                then Some (enc_item i) else None.
+Proof. exact (serialize_gen_spec false i). Qed.
+(* the statement of the unextended model, for items without protected-mode constructors *)
+Theorem serialize_spec_plain i : plain i = true ->
   serialize i = if (count_item i <=? max_items)%nat && (Z.of_nat (length (enc_item i)) <=? max_size)
                 then Some (enc_item i) else None.
-Proof. unfold serialize. rewrite ser_spec. cbn [length app Nat.add]. case_if; reflexivity. Qed.
+Proof. intros Hp. rewrite serialize_spec, Hp. reflexivity. Qed.
+
+(* --- protected mode: SerializationContext.Serialize(item, true) never fails, it writes the Invalid marker --- *)
+Theorem serialize_prot_total i :
+  serialize_prot i = if (count_item i <=? max_items)%nat && (Z.of_nat (length (enc_item i)) <=? max_size)
+                     then enc_item i else [255].
+Proof. unfold serialize_prot. rewrite serialize_gen_spec. cbn [mode_ok orb andb]. case_if; reflexivity. Qed.
+Theorem serialize_prot_ok i :
+  (count_item i <= max_items)%nat -> Z.of_nat (length (enc_item i)) <= max_size -> serialize_prot i = enc_item i.
+Proof. intros Hc Hs. rewrite serialize_prot_total. now replace ((count_item i <=? max_items)%nat && (Z.of_nat (length (enc_item i)) <=? max_size)) with true by lia. Qed.
 
 (* ================= one step of decodeBinary, parametrised by the recursive call ================= *)
-Definition read_body (rd : rdec item) (t : Z) (lim' : nat) (r : list Z) : option (item * nat * list Z) :=
+Definition read_body (prot : bool) (rd : rdec item) (t : Z) (lim' : nat) (r : list Z) : option (item * nat * list Z) :=
   if t =? 0 then Some (IAny, lim', r)
   else if t =? 32 then match read_bool_lax r with Some (b, r') => Some (IBool b, lim', r') | None => None end
   else if t =? 33 then match read_varbytes max_int_bytes r with Some (d, r') => Some (IInt (from_bytes d), lim', r') | None => None end
@@ -271,35 +386,38 @@ Definition read_body (rd : rdec item) (t : Z) (lim' : nat) (r : list Z) : option
         end
     | None => None
     end
+  else if prot && (t =? 96) then Some (IInterop, lim', r)
+  else if prot && (t =? 16) then match read_varuint r with Some (p, r') => Some (IPointer p, lim', r') | None => None end
+  else if prot && (t =? 255) then Some (IInvalid, lim', r)
   else None.
 
-Lemma read_item_S f lim bs :
-  read_item (S f) lim bs =
+Lemma read_item_S prot f lim bs :
+  read_item prot (S f) lim bs =
   match bs with
   | [] => None
-  | t :: r => match lim with O => None | S lim' => read_body (read_item f) t lim' r end
+  | t :: r => match lim with O => None | S lim' => read_body prot (read_item prot f) t lim' r end
   end.
 Proof. reflexivity. Qed.
-Lemma read_item_O lim bs : read_item O lim bs = None.
+Lemma read_item_O prot lim bs : read_item prot O lim bs = None.
 Proof. reflexivity. Qed.
 
-Lemma read_body_0 rd lim r : read_body rd 0 lim r = Some (IAny, lim, r).
+Lemma read_body_0 prot rd lim r : read_body prot rd 0 lim r = Some (IAny, lim, r).
 Proof. reflexivity. Qed.
-Lemma read_body_32 rd lim r :
-  read_body rd 32 lim r = match read_bool_lax r with Some (b, r') => Some (IBool b, lim, r') | None => None end.
+Lemma read_body_32 prot rd lim r :
+  read_body prot rd 32 lim r = match read_bool_lax r with Some (b, r') => Some (IBool b, lim, r') | None => None end.
 Proof. reflexivity. Qed.
-Lemma read_body_33 rd lim r :
-  read_body rd 33 lim r =
+Lemma read_body_33 prot rd lim r :
+  read_body prot rd 33 lim r =
   match read_varbytes max_int_bytes r with Some (d, r') => Some (IInt (from_bytes d), lim, r') | None => None end.
 Proof. reflexivity. Qed.
-Lemma read_body_40 rd lim r :
-  read_body rd 40 lim r = match read_varbytes max_size r with Some (d, r') => Some (IBytes d, lim, r') | None => None end.
+Lemma read_body_40 prot rd lim r :
+  read_body prot rd 40 lim r = match read_varbytes max_size r with Some (d, r') => Some (IBytes d, lim, r') | None => None end.
 Proof. reflexivity. Qed.
-Lemma read_body_48 rd lim r :
-  read_body rd 48 lim r = match read_varbytes max_size r with Some (d, r') => Some (IBuffer d, lim, r') | None => None end.
+Lemma read_body_48 prot rd lim r :
+  read_body prot rd 48 lim r = match read_varbytes max_size r with Some (d, r') => Some (IBuffer d, lim, r') | None => None end.
 Proof. reflexivity. Qed.
-Lemma read_body_64 rd lim r :
-  read_body rd 64 lim r =
+Lemma read_body_64 prot rd lim r :
+  read_body prot rd 64 lim r =
   match read_varuint r with
   | Some (n, r') => if Z.of_nat lim <? n then None else
                     match read_items rd (Z.to_nat n) lim r' with
@@ -307,8 +425,8 @@ Lemma read_body_64 rd lim r :
   | None => None
   end.
 Proof. reflexivity. Qed.
-Lemma read_body_65 rd lim r :
-  read_body rd 65 lim r =
+Lemma read_body_65 prot rd lim r :
+  read_body prot rd 65 lim r =
   match read_varuint r with
   | Some (n, r') => if Z.of_nat lim <? n then None else
                     match read_items rd (Z.to_nat n) lim r' with
@@ -316,8 +434,8 @@ Lemma read_body_65 rd lim r :
   | None => None
   end.
 Proof. reflexivity. Qed.
-Lemma read_body_72 rd lim r :
-  read_body rd 72 lim r =
+Lemma read_body_72 prot rd lim r :
+  read_body prot rd 72 lim r =
   match read_varuint r with
   | Some (n, r') => if Z.of_nat (lim / 2) <? n then None else
                     match read_pairs rd (Z.to_nat n) [] lim r' with
@@ -325,29 +443,40 @@ Lemma read_body_72 rd lim r :
   | None => None
   end.
 Proof. reflexivity. Qed.
+Lemma read_body_96 rd lim r : read_body true rd 96 lim r = Some (IInterop, lim, r).
+Proof. reflexivity. Qed.
+Lemma read_body_16 rd lim r :
+  read_body true rd 16 lim r = match read_varuint r with Some (p, r') => Some (IPointer p, lim, r') | None => None end.
+Proof. reflexivity. Qed.
+Lemma read_body_255 rd lim r : read_body true rd 255 lim r = Some (IInvalid, lim, r).
+Proof. reflexivity. Qed.
 
 (* every way [read_body] can succeed *)
-Inductive read_case (rd : rdec item) (t : Z) (lim : nat) (r : list Z) (i : item) (lim' : nat) (rest : list Z) : Prop :=
-| rc_any : t = 0 -> i = IAny -> lim' = lim -> rest = r -> read_case rd t lim r i lim' rest
-| rc_bool b : t = 32 -> read_bool_lax r = Some (b, rest) -> i = IBool b -> lim' = lim -> read_case rd t lim r i lim' rest
+Inductive read_case (prot : bool) (rd : rdec item) (t : Z) (lim : nat) (r : list Z) (i : item) (lim' : nat) (rest : list Z) : Prop :=
+| rc_any : t = 0 -> i = IAny -> lim' = lim -> rest = r -> read_case prot rd t lim r i lim' rest
+| rc_bool b : t = 32 -> read_bool_lax r = Some (b, rest) -> i = IBool b -> lim' = lim -> read_case prot rd t lim r i lim' rest
 | rc_int d : t = 33 -> read_varbytes max_int_bytes r = Some (d, rest) -> i = IInt (from_bytes d) -> lim' = lim ->
-             read_case rd t lim r i lim' rest
+             read_case prot rd t lim r i lim' rest
 | rc_bytes d : t = 40 -> read_varbytes max_size r = Some (d, rest) -> i = IBytes d -> lim' = lim ->
-               read_case rd t lim r i lim' rest
+               read_case prot rd t lim r i lim' rest
 | rc_buffer d : t = 48 -> read_varbytes max_size r = Some (d, rest) -> i = IBuffer d -> lim' = lim ->
-                read_case rd t lim r i lim' rest
+                read_case prot rd t lim r i lim' rest
 | rc_array n r' l : t = 64 -> read_varuint r = Some (n, r') -> n <= Z.of_nat lim ->
                     read_items rd (Z.to_nat n) lim r' = Some (l, lim', rest) -> i = IArray l ->
-                    read_case rd t lim r i lim' rest
+                    read_case prot rd t lim r i lim' rest
 | rc_struct n r' l : t = 65 -> read_varuint r = Some (n, r') -> n <= Z.of_nat lim ->
                      read_items rd (Z.to_nat n) lim r' = Some (l, lim', rest) -> i = IStruct l ->
-                     read_case rd t lim r i lim' rest
+                     read_case prot rd t lim r i lim' rest
 | rc_map n r' l : t = 72 -> read_varuint r = Some (n, r') -> n <= Z.of_nat (lim / 2) ->
                   read_pairs rd (Z.to_nat n) [] lim r' = Some (l, lim', rest) -> i = IMap l ->
-                  read_case rd t lim r i lim' rest.
+                  read_case prot rd t lim r i lim' rest
+| rc_interop : prot = true -> t = 96 -> i = IInterop -> lim' = lim -> rest = r -> read_case prot rd t lim r i lim' rest
+| rc_pointer p : prot = true -> t = 16 -> read_varuint r = Some (p, rest) -> i = IPointer p -> lim' = lim ->
+                 read_case prot rd t lim r i lim' rest
+| rc_invalid : prot = true -> t = 255 -> i = IInvalid -> lim' = lim -> rest = r -> read_case prot rd t lim r i lim' rest.
 
-Lemma read_body_some rd t lim r i lim' rest :
-  read_body rd t lim r = Some (i, lim', rest) -> read_case rd t lim r i lim' rest.
+Lemma read_body_some prot rd t lim r i lim' rest :
+  read_body prot rd t lim r = Some (i, lim', rest) -> read_case prot rd t lim r i lim' rest.
 Proof.
   unfold read_body. intros H.
   case_if_in H. { inv H. apply rc_any; auto; lia. }
@@ -360,16 +489,20 @@ Proof.
     case_if_in H; [discriminate|].
     destruct (read_items rd (Z.to_nat n) lim r') as [[[l l2] r2]|] eqn:E2; [|discriminate].
     case_if_in H; inv H; [eapply rc_array|eapply rc_struct]; eauto; lia. }
-  case_if_in H; [|discriminate].
-  destruct (read_varuint r) as [[n r']|] eqn:E; [|discriminate].
-  case_if_in H; [discriminate|].
-  destruct (read_pairs rd (Z.to_nat n) [] lim r') as [[[l l2] r2]|] eqn:E2; [|discriminate].
-  inv H. eapply rc_map; eauto; lia.
+  case_if_in H.
+  { destruct (read_varuint r) as [[n r']|] eqn:E; [|discriminate].
+    case_if_in H; [discriminate|].
+    destruct (read_pairs rd (Z.to_nat n) [] lim r') as [[[l l2] r2]|] eqn:E2; [|discriminate].
+    inv H. eapply rc_map; eauto; lia. }
+  destruct prot; cbn [andb] in H; [|discriminate].
+  case_if_in H. { inv H. apply rc_interop; auto; lia. }
+  case_if_in H. { destruct (read_varuint r) as [[p r']|] eqn:E; [|discriminate]. inv H. eapply rc_pointer; eauto; lia. }
+  case_if_in H; [|discriminate]. inv H. apply rc_invalid; auto; lia.
 Qed.
 
-Lemma read_item_some f lim bs i lim' rest :
-  read_item f lim bs = Some (i, lim', rest) ->
-  exists f0 t r lim0, f = S f0 /\ bs = t :: r /\ lim = S lim0 /\ read_case (read_item f0) t lim0 r i lim' rest.
+Lemma read_item_some prot f lim bs i lim' rest :
+  read_item prot f lim bs = Some (i, lim', rest) ->
+  exists f0 t r lim0, f = S f0 /\ bs = t :: r /\ lim = S lim0 /\ read_case prot (read_item prot f0) t lim0 r i lim' rest.
 Proof.
   destruct f as [|f0]; [discriminate|]. rewrite read_item_S.
   destruct bs as [|t r]; [discriminate|]. destruct lim as [|lim0]; [discriminate|].
@@ -421,10 +554,11 @@ Proof.
     pose proof (count_pairs_map_add acc k v). pose proof (length_map_add acc k v). lia.
 Qed.
 
-Lemma read_case_budget rd t lim r i lim' rest : rd_budget rd ->
-  read_case rd t lim r i lim' rest -> (lim' + count_item i <= S lim)%nat /\ (length rest <= length r)%nat.
+Lemma read_case_budget prot rd t lim r i lim' rest : rd_budget rd ->
+  read_case prot rd t lim r i lim' rest -> (lim' + count_item i <= S lim)%nat /\ (length rest <= length r)%nat.
 Proof.
-  intros Hrd H. destruct H as [? ? ? ?|b ? E ? ?|d ? E ? ?|d ? E ? ?|d ? E ? ?|n r' l ? E ? E2 ?|n r' l ? E ? E2 ?|n r' l ? E ? E2 ?]; subst.
+  intros Hrd H. destruct H as [? ? ? ?|b ? E ? ?|d ? E ? ?|d ? E ? ?|d ? E ? ?|n r' l ? E ? E2 ?|n r' l ? E ? E2 ?|n r' l ? E ? E2 ?
+                              |? ? ? ? ?|p ? ? E ? ?|? ? ? ? ?]; subst.
   - cbn [count_item]. lia.
   - apply read_bool_lax_some in E as [x ->]. cbn [count_item length]. lia.
   - apply read_varbytes_consumes in E. cbn [count_item]. lia.
@@ -434,27 +568,48 @@ Proof.
   - apply read_varuint_consumes in E. apply (read_items_budget rd Hrd) in E2. rewrite count_item_struct. lia.
   - apply read_varuint_consumes in E. apply (read_pairs_budget rd Hrd) in E2. rewrite count_item_map.
     cbn [count_pairs] in E2. lia.
+  - cbn [count_item]. lia.
+  - apply read_varuint_consumes in E. cbn [count_item]. lia.
+  - cbn [count_item]. lia.
 Qed.
 
-Lemma read_item_budget_all f : rd_budget (read_item f).
+Lemma read_item_budget_all prot f : rd_budget (read_item prot f).
 Proof.
   induction f as [|f IH]; intros lim bs i lim' rest H; [discriminate|].
   apply read_item_some in H as (f0 & t & r & lim0 & Ef & -> & -> & Hc). inv Ef.
-  apply (read_case_budget _ _ _ _ _ _ _ IH) in Hc. cbn [length]. lia.
+  apply (read_case_budget _ _ _ _ _ _ _ _ IH) in Hc. cbn [length]. lia.
 Qed.
 
-(* the budget consumed bounds the number of items built; at least one byte is consumed *)
-Theorem read_item_budget f lim bs i lim' rest :
-  read_item f lim bs = Some (i, lim', rest) ->
+(* the budget consumed bounds the number of items built; at least one byte is consumed (both modes) *)
+Theorem read_item_budget prot f lim bs i lim' rest :
+  read_item prot f lim bs = Some (i, lim', rest) ->
   (lim' + count_item i <= lim)%nat /\ (length rest < length bs)%nat.
 Proof. apply read_item_budget_all. Qed.
 
 (* alloc/count bounded: no accepted input yields more than MaxDeserialized items *)
-Theorem deserialize_limits bs i : deserialize bs = Some i -> (count_item i <= max_items)%nat.
+Theorem deserialize_gen_limits prot bs i : deserialize_gen prot bs = Some i -> (count_item i <= max_items)%nat.
 Proof.
-  unfold deserialize. destruct (read_item (S (length bs)) max_items bs) as [[[x l] r]|] eqn:E; [|discriminate].
+  unfold deserialize_gen. destruct (read_item prot (S (length bs)) max_items bs) as [[[x l] r]|] eqn:E; [|discriminate].
   intros H; inv H. apply read_item_budget in E. lia.
 Qed.
+Theorem deserialize_limits bs i : deserialize bs = Some i -> (count_item i <= max_items)%nat.
+Proof. apply deserialize_gen_limits. Qed.
+
+(* one item from a stream *)
+Lemma read_item_dec_some prot bs i rest :
+  read_item_dec prot bs = Some (i, rest) <->
+  exists lim', read_item prot (S (length bs)) max_items bs = Some (i, lim', rest).
+Proof.
+  unfold read_item_dec. destruct (read_item prot (S (length bs)) max_items bs) as [[[x l] r]|]; split.
+  - intros H; inv H. eauto.
+  - intros [l0 H]. inv H. reflexivity.
+  - discriminate.
+  - intros [l0 H]. discriminate.
+Qed.
+Theorem read_item_dec_consumes prot : dec_consumes (read_item_dec prot).
+Proof. intros bs i rest H. apply read_item_dec_some in H as [l0 H]. apply read_item_budget in H. lia. Qed.
+Theorem read_item_dec_limits prot bs i rest : read_item_dec prot bs = Some (i, rest) -> (count_item i <= max_items)%nat.
+Proof. intros H. apply read_item_dec_some in H as [l0 H]. apply read_item_budget in H. lia. Qed.
 
 (* ================= F. fuel ================= *)
 Definition rd_le (rd rd' : rdec item) : Prop := forall lim bs r, rd lim bs = Some r -> rd' lim bs = Some r.
@@ -474,23 +629,23 @@ Proof.
   destruct (rd l1 r1) as [[[v l2] r2]|] eqn:E2; [|discriminate]. rewrite (Hle _ _ _ E2).
   case_if; [|discriminate]. apply IH. exact H.
 Qed.
-Lemma read_body_mono rd rd' t lim r x : rd_le rd rd' ->
-  read_body rd t lim r = Some x -> read_body rd' t lim r = Some x.
+Lemma read_body_mono prot rd rd' t lim r x : rd_le rd rd' ->
+  read_body prot rd t lim r = Some x -> read_body prot rd' t lim r = Some x.
 Proof.
   intros Hle. unfold read_body. repeat (case_if; [exact (fun H => H)|]).
   case_if.
   { destruct (read_varuint r) as [[n r']|]; [|discriminate]. case_if; [discriminate|].
     destruct (read_items rd (Z.to_nat n) lim r') as [[[l l2] r2]|] eqn:E; [|discriminate].
     rewrite (read_items_mono _ _ Hle _ _ _ _ E). exact (fun H => H). }
-  case_if; [|discriminate].
+  case_if; [|exact (fun H => H)].
   destruct (read_varuint r) as [[n r']|]; [|discriminate]. case_if; [discriminate|].
   destruct (read_pairs rd (Z.to_nat n) [] lim r') as [[[l l2] r2]|] eqn:E; [|discriminate].
   rewrite (read_pairs_mono _ _ Hle _ _ _ _ _ E). exact (fun H => H).
 Qed.
 
 (* a result obtained with some fuel is obtained with any larger fuel *)
-Theorem read_item_fuel_mono f f' lim bs r :
-  read_item f lim bs = Some r -> (f <= f')%nat -> read_item f' lim bs = Some r.
+Theorem read_item_fuel_mono prot f f' lim bs r :
+  read_item prot f lim bs = Some r -> (f <= f')%nat -> read_item prot f' lim bs = Some r.
 Proof.
   revert f' lim bs r. induction f as [|f IH]; intros f' lim bs r H Hle; [discriminate|].
   destruct f' as [|f']; [lia|]. rewrite read_item_S in *.
@@ -517,8 +672,8 @@ Proof.
   apply Hb in E. rewrite <- (Ha l1 r1) by lia. destruct (rd l1 r1) as [[[v l2] r2]|] eqn:E2; [|reflexivity].
   apply Hb in E2. case_if; [|reflexivity]. apply IH. lia.
 Qed.
-Lemma read_body_agree m rd rd' t lim r : rd_agree m rd rd' -> rd_budget rd -> (length r <= m)%nat ->
-  read_body rd t lim r = read_body rd' t lim r.
+Lemma read_body_agree prot m rd rd' t lim r : rd_agree m rd rd' -> rd_budget rd -> (length r <= m)%nat ->
+  read_body prot rd t lim r = read_body prot rd' t lim r.
 Proof.
   intros Ha Hb Hl. unfold read_body. repeat (case_if; [reflexivity|]).
   case_if.
@@ -531,18 +686,21 @@ Qed.
 
 (* beyond the input length extra fuel changes nothing: a [None] of [deserialize] (fuel = S (length bs)) is a
    genuine rejection of the input, never "out of fuel"  (decode_total) *)
-Theorem read_item_fuel_enough f f' lim bs :
-  (length bs < f)%nat -> (length bs < f')%nat -> read_item f lim bs = read_item f' lim bs.
+Theorem read_item_fuel_enough prot f f' lim bs :
+  (length bs < f)%nat -> (length bs < f')%nat -> read_item prot f lim bs = read_item prot f' lim bs.
 Proof.
   revert f' lim bs. induction f as [|f IH]; intros f' lim bs H1 H2; [lia|].
   destruct f' as [|f']; [lia|]. rewrite !read_item_S.
   destruct bs as [|t b]; [reflexivity|]. destruct lim as [|lim0]; [reflexivity|]. cbn [length] in *.
-  apply (read_body_agree (length b)); [|apply read_item_budget_all|lia].
+  apply (read_body_agree prot (length b)); [|apply read_item_budget_all|lia].
   intros l0 b0 Hb0. apply IH; lia.
 Qed.
+Corollary deserialize_gen_fuel prot bs f : (length bs < f)%nat ->
+  deserialize_gen prot bs = match read_item prot f max_items bs with Some (i, _, _) => Some i | None => None end.
+Proof. intros H. unfold deserialize_gen. rewrite (read_item_fuel_enough prot (S (length bs)) f) by lia. reflexivity. Qed.
 Corollary deserialize_fuel bs f : (length bs < f)%nat ->
-  deserialize bs = match read_item f max_items bs with Some (i, _, _) => Some i | None => None end.
-Proof. intros H. unfold deserialize. rewrite (read_item_fuel_enough (S (length bs)) f) by lia. reflexivity. Qed.
+  deserialize bs = match read_item false f max_items bs with Some (i, _, _) => Some i | None => None end.
+Proof. apply deserialize_gen_fuel. Qed.
 
 (* ================= B. well-formed items ================= *)
 (* keys pairwise distinct w.r.t. Map.Add's comparison (earlier key against later key, as [map_add] tests) *)
@@ -552,19 +710,65 @@ Fixpoint keys_distinct (ks : list item) : Prop :=
   | k :: t => Forall (fun k' => key_eqb k k' = false) t /\ keys_distinct t
   end.
 
-Inductive item_wf : item -> Prop :=
-| wf_any : item_wf IAny
-| wf_bool b : item_wf (IBool b)
-| wf_int z : in_int256 z = true -> item_wf (IInt z)                                  (* 32-byte VM integer *)
-| wf_bytes b : bytes_ok b -> Z.of_nat (length b) <= max_size -> item_wf (IBytes b)
-| wf_buffer b : bytes_ok b -> Z.of_nat (length b) <= max_size -> item_wf (IBuffer b)
-| wf_array l : Forall item_wf l -> item_wf (IArray l)
-| wf_struct l : Forall item_wf l -> item_wf (IStruct l)
-| wf_map l : Forall (fun kv => valid_key (fst kv) = true /\ item_wf (fst kv) /\ item_wf (snd kv)) l ->
-             keys_distinct (map fst l) -> item_wf (IMap l).
+(* what mode [prot] produces and accepts: the last three constructors in protected mode only (at any depth) *)
+Inductive item_wf_g (prot : bool) : item -> Prop :=
+| wf_any : item_wf_g prot IAny
+| wf_bool b : item_wf_g prot (IBool b)
+| wf_int z : in_int256 z = true -> item_wf_g prot (IInt z)                                  (* 32-byte VM integer *)
+| wf_bytes b : bytes_ok b -> Z.of_nat (length b) <= max_size -> item_wf_g prot (IBytes b)
+| wf_buffer b : bytes_ok b -> Z.of_nat (length b) <= max_size -> item_wf_g prot (IBuffer b)
+| wf_array l : Forall (item_wf_g prot) l -> item_wf_g prot (IArray l)
+| wf_struct l : Forall (item_wf_g prot) l -> item_wf_g prot (IStruct l)
+| wf_map l : Forall (fun kv => valid_key (fst kv) = true /\ item_wf_g prot (fst kv) /\ item_wf_g prot (snd kv)) l ->
+             keys_distinct (map fst l) -> item_wf_g prot (IMap l)
+| wf_interop : prot = true -> item_wf_g prot IInterop
+| wf_pointer pos : prot = true -> 0 <= pos < 2 ^ 64 -> item_wf_g prot (IPointer pos)
+| wf_invalid : prot = true -> item_wf_g prot IInvalid.
 
-Definition pairs_wf (l : list (item * item)) : Prop :=
-  Forall (fun kv => valid_key (fst kv) = true /\ item_wf (fst kv) /\ item_wf (snd kv)) l /\ keys_distinct (map fst l).
+(* normal mode (Serialize / Deserialize) and protected mode *)
+Definition item_wf : item -> Prop := item_wf_g false.
+Definition item_wf_p : item -> Prop := item_wf_g true.
+
+Definition pairs_wf (prot : bool) (l : list (item * item)) : Prop :=
+  Forall (fun kv => valid_key (fst kv) = true /\ item_wf_g prot (fst kv) /\ item_wf_g prot (snd kv)) l /\
+  keys_distinct (map fst l).
+
+(* a normal-mode item is a protected-mode item *)
+Lemma item_wf_g_mono prot i : item_wf_g false i -> item_wf_g prot i.
+Proof.
+  induction i as [| | | | |l IHl|l IHl|l IHl| | |] using item_ind'; intros H; inv H; try discriminate.
+  - constructor.
+  - constructor.
+  - constructor; assumption.
+  - constructor; assumption.
+  - constructor; assumption.
+  - constructor. rewrite Forall_forall in *. auto.
+  - constructor. rewrite Forall_forall in *. auto.
+  - constructor; [|assumption]. rewrite Forall_forall in *. intros kv Hin.
+    destruct (H1 kv Hin) as (A & B & C). destruct (IHl kv Hin) as [Hk Hv]. auto.
+Qed.
+Theorem item_wf_wf_p i : item_wf i -> item_wf_p i.
+Proof. apply item_wf_g_mono. Qed.
+
+(* a well-formed item of a mode has only constructors of that mode *)
+Lemma wf_plain_list prot l : Forall (fun x => item_wf_g prot x -> mode_ok prot x = true) l ->
+  Forall (item_wf_g prot) l -> prot || plain_list l = true.
+Proof.
+  induction 1 as [|x t Hx Ht IH]; intros Hw; cbn [plain_list]; [apply orb_true_r|]. inv Hw.
+  rewrite mode_ok_list, Hx, IH by assumption. reflexivity.
+Qed.
+Lemma wf_mode_ok prot i : item_wf_g prot i -> mode_ok prot i = true.
+Proof.
+  induction i as [| | | | |l IHl|l IHl|l IHl| | |] using item_ind'; intros H; inv H; unfold mode_ok;
+    try (cbn [plain]; apply orb_true_r); try (cbn [orb]; reflexivity).
+  - rewrite plain_array. apply wf_plain_list; assumption.
+  - rewrite plain_struct. apply wf_plain_list; assumption.
+  - rewrite plain_map. clear H2. induction IHl as [|[k v] t [Hk Hv] Ht IH]; cbn [plain_pairs]; [apply orb_true_r|].
+    inv H1. destruct H2 as (_ & Hwk & Hwv). cbn [fst snd] in *.
+    rewrite mode_ok_pairs, Hk, Hv, IH by assumption. reflexivity.
+Qed.
+Theorem item_wf_plain i : item_wf i -> plain i = true.
+Proof. intros H. apply wf_mode_ok in H. exact H. Qed.
 
 (* nesting depth; every level costs at least one byte of encoding *)
 Fixpoint item_depth (i : item) : nat :=
@@ -603,8 +807,8 @@ Proof.
 Qed.
 Theorem item_depth_lt_enc i : (item_depth i < length (enc_item i))%nat.
 Proof.
-  induction i as [| | | | |l IHl|l IHl|l IHl] using item_ind'.
-  1-5: cbn [item_depth enc_item length]; lia.
+  induction i as [| | | | |l IHl|l IHl|l IHl| | |] using item_ind'.
+  1-5, 9-11: cbn [item_depth enc_item length]; lia.
   - rewrite item_depth_array, enc_item_array. cbn [length]. rewrite app_length.
     pose proof (write_varuint_length (Z.of_nat (length l))). apply depth_list_lt in IHl. lia.
   - rewrite item_depth_struct, enc_item_struct. cbn [length]. rewrite app_length.
@@ -628,13 +832,13 @@ Proof.
   intros Hf. inv Hf. rewrite H1. now rewrite IH.
 Qed.
 
-Definition rt_P (i : item) : Prop :=
-  item_wf i -> forall fuel lim rest, (count_item i <= lim)%nat -> Z.of_nat lim < 2 ^ 64 -> (item_depth i < fuel)%nat ->
-    read_item fuel lim (enc_item i ++ rest) = Some (i, (lim - count_item i)%nat, rest).
+Definition rt_P (prot : bool) (i : item) : Prop :=
+  item_wf_g prot i -> forall fuel lim rest, (count_item i <= lim)%nat -> Z.of_nat lim < 2 ^ 64 -> (item_depth i < fuel)%nat ->
+    read_item prot fuel lim (enc_item i ++ rest) = Some (i, (lim - count_item i)%nat, rest).
 
-Lemma read_items_enc f l : Forall rt_P l -> Forall item_wf l -> (depth_list l < f)%nat ->
+Lemma read_items_enc prot f l : Forall (rt_P prot) l -> Forall (item_wf_g prot) l -> (depth_list l < f)%nat ->
   forall lim rest, (count_list l <= lim)%nat -> Z.of_nat lim < 2 ^ 64 ->
-    read_items (read_item f) (length l) lim (enc_list l ++ rest) = Some (l, (lim - count_list l)%nat, rest).
+    read_items (read_item prot f) (length l) lim (enc_list l ++ rest) = Some (l, (lim - count_list l)%nat, rest).
 Proof.
   intros HP. induction HP as [|x t Hx Ht IH]; intros Hwf Hd lim rest Hc H64;
     cbn [length read_items enc_list count_list depth_list] in *.
@@ -642,10 +846,11 @@ Proof.
   - inv Hwf. rewrite <- app_assoc. rewrite Hx by (assumption || lia).
     rewrite IH by (assumption || lia). do 3 f_equal. lia.
 Qed.
-Lemma read_pairs_enc f l : Forall (fun kv => rt_P (fst kv) /\ rt_P (snd kv)) l ->
-  Forall (fun kv => valid_key (fst kv) = true /\ item_wf (fst kv) /\ item_wf (snd kv)) l -> (depth_pairs l < f)%nat ->
+Lemma read_pairs_enc prot f l : Forall (fun kv => rt_P prot (fst kv) /\ rt_P prot (snd kv)) l ->
+  Forall (fun kv => valid_key (fst kv) = true /\ item_wf_g prot (fst kv) /\ item_wf_g prot (snd kv)) l ->
+  (depth_pairs l < f)%nat ->
   forall acc lim rest, keys_distinct (map fst acc ++ map fst l) -> (count_pairs l <= lim)%nat -> Z.of_nat lim < 2 ^ 64 ->
-    read_pairs (read_item f) (length l) acc lim (enc_pairs l ++ rest) = Some (acc ++ l, (lim - count_pairs l)%nat, rest).
+    read_pairs (read_item prot f) (length l) acc lim (enc_pairs l ++ rest) = Some (acc ++ l, (lim - count_pairs l)%nat, rest).
 Proof.
   intros HP. induction HP as [|[k v] t [Hk Hv] Ht IH]; intros Hwf Hd acc lim rest Hkd Hc H64;
     cbn [length read_pairs enc_pairs count_pairs depth_pairs fst snd map] in *.
@@ -658,9 +863,9 @@ Proof.
     + rewrite map_app. cbn [map fst]. rewrite <- app_assoc. exact Hkd.
 Qed.
 
-Lemma rt_all i : rt_P i.
+Lemma rt_all prot i : rt_P prot i.
 Proof.
-  induction i as [| | | | |l IHl|l IHl|l IHl] using item_ind'; intros Hwf fuel lim rest Hc H64 Hd;
+  induction i as [| | | | |l IHl|l IHl|l IHl| | |] using item_ind'; intros Hwf fuel lim rest Hc H64 Hd;
     (destruct fuel as [|f]; [lia|]); (destruct lim as [|lim0]; [cbn [count_item] in Hc; lia|]).
   - cbn [enc_item app]. rewrite read_item_S, read_body_0. cbn [count_item]. do 3 f_equal. lia.
   - cbn [enc_item app]. rewrite read_item_S, read_body_32, read_bool_lax_write. cbn [count_item]. do 3 f_equal. lia.
@@ -693,30 +898,67 @@ Proof.
     rewrite varuint_roundtrip by (unfold u64_ok; lia).
     replace (Z.of_nat (lim0 / 2) <? Z.of_nat (length l)) with false by lia. rewrite Nat2Z.id.
     rewrite read_pairs_enc by (assumption || lia). cbn [app]. do 3 f_equal.
+  - inv Hwf. cbn [enc_item app]. rewrite read_item_S, read_body_96. cbn [count_item]. do 3 f_equal. lia.
+  - inv Hwf. cbn [enc_item app]. rewrite read_item_S, read_body_16.
+    rewrite varuint_roundtrip by (unfold u64_ok; lia). cbn [count_item]. do 3 f_equal. lia.
+  - inv Hwf. cbn [enc_item app]. rewrite read_item_S, read_body_255. cbn [count_item]. do 3 f_equal. lia.
 Qed.
 
 (* Round-trip with the budget threaded.  [lim < 2^64]: the budget is a Go int. *)
+Theorem read_item_enc_gen prot i fuel lim rest :
+  item_wf_g prot i -> (count_item i <= lim)%nat -> Z.of_nat lim < 2 ^ 64 -> (item_depth i < fuel)%nat ->
+  read_item prot fuel lim (enc_item i ++ rest) = Some (i, (lim - count_item i)%nat, rest).
+Proof. intros Hwf Hc H64 Hd. apply rt_all; assumption. Qed.
 Theorem read_item_enc i fuel lim rest :
   item_wf i -> (count_item i <= lim)%nat -> Z.of_nat lim < 2 ^ 64 -> (item_depth i < fuel)%nat ->
-  read_item fuel lim (enc_item i ++ rest) = Some (i, (lim - count_item i)%nat, rest).
-Proof. intros Hwf Hc H64 Hd. apply rt_all; assumption. Qed.
+  read_item false fuel lim (enc_item i ++ rest) = Some (i, (lim - count_item i)%nat, rest).
+Proof. apply read_item_enc_gen. Qed.
+Theorem read_item_enc_p i fuel lim rest :
+  item_wf_p i -> (count_item i <= lim)%nat -> Z.of_nat lim < 2 ^ 64 -> (item_depth i < fuel)%nat ->
+  read_item true fuel lim (enc_item i ++ rest) = Some (i, (lim - count_item i)%nat, rest).
+Proof. apply read_item_enc_gen. Qed.
 
 Lemma max_items_val : Z.of_nat max_items = 2048.
 Proof. vm_compute. reflexivity. Qed.
 
-Theorem deserialize_serialize i bs : item_wf i -> serialize i = Some bs -> deserialize bs = Some i.
+(* the stream reader returns the item and exactly the rest: [codec_ok] for items within the count limit *)
+Theorem read_item_dec_enc prot i rest :
+  item_wf_g prot i -> (count_item i <= max_items)%nat -> read_item_dec prot (enc_item i ++ rest) = Some (i, rest).
 Proof.
-  intros Hwf H. apply serialize_some in H as (-> & Hc & _). unfold deserialize.
-  rewrite <- (app_nil_r (enc_item i)) at 2.
-  rewrite read_item_enc; [reflexivity|assumption|assumption|rewrite max_items_val; lia|].
+  intros Hwf Hc. unfold read_item_dec.
+  rewrite read_item_enc_gen; [reflexivity|assumption|assumption|rewrite max_items_val; lia|].
+  pose proof (item_depth_lt_enc i). rewrite app_length. lia.
+Qed.
+Theorem deserialize_gen_enc prot i :
+  item_wf_g prot i -> (count_item i <= max_items)%nat -> deserialize_gen prot (enc_item i) = Some i.
+Proof.
+  intros Hwf Hc. unfold deserialize_gen. rewrite <- (app_nil_r (enc_item i)) at 2.
+  rewrite read_item_enc_gen; [reflexivity|assumption|assumption|rewrite max_items_val; lia|].
   pose proof (item_depth_lt_enc i). lia.
 Qed.
+Theorem deserialize_gen_serialize prot i bs :
+  item_wf_g prot i -> serialize_gen prot i = Some bs -> deserialize_gen prot bs = Some i.
+Proof. intros Hwf H. apply serialize_gen_some in H as (-> & Hc & _). apply deserialize_gen_enc; assumption. Qed.
+Theorem deserialize_serialize i bs : item_wf i -> serialize i = Some bs -> deserialize bs = Some i.
+Proof. apply deserialize_gen_serialize. Qed.
+(* protected mode: what Serialize(item, true) wrote for a well-formed item within the limits comes back *)
+Theorem deserialize_p_enc i :
+  item_wf_p i -> (count_item i <= max_items)%nat -> deserialize_gen true (enc_item i) = Some i.
+Proof. apply deserialize_gen_enc. Qed.
+Theorem deserialize_serialize_prot i :
+  item_wf_p i -> (count_item i <= max_items)%nat -> Z.of_nat (length (enc_item i)) <= max_size ->
+  deserialize_gen true (serialize_prot i) = Some i.
+Proof. intros Hwf Hc Hs. rewrite serialize_prot_ok by assumption. apply deserialize_p_enc; assumption. Qed.
+(* ... and an item beyond the limits comes back as the nil item *)
+Theorem deserialize_serialize_prot_over i :
+  serialize_gen true i = None -> deserialize_gen true (serialize_prot i) = Some IInvalid.
+Proof. intros H. unfold serialize_prot. rewrite H. vm_compute. reflexivity. Qed.
 
 (* ================= D/E. what the decoder accepts ================= *)
 (* well-formed, rest still bytes, and the canonical encoding of the result is not longer than what was read *)
-Definition rd_good (rd : rdec item) : Prop :=
+Definition rd_good (prot : bool) (rd : rdec item) : Prop :=
   forall lim bs i lim' rest, bytes_ok bs -> rd lim bs = Some (i, lim', rest) ->
-    item_wf i /\ bytes_ok rest /\ (length (enc_item i) + length rest <= length bs)%nat.
+    item_wf_g prot i /\ bytes_ok rest /\ (length (enc_item i) + length rest <= length bs)%nat.
 
 Lemma write_varuint_length_mono a b : 0 <= a <= b -> (length (write_varuint a) <= length (write_varuint b))%nat.
 Proof. intros H. unfold write_varuint. repeat case_if; cbn [length]; rewrite ?le_bytes_length; lia. Qed.
@@ -736,9 +978,9 @@ Proof.
   intros Hd Hl. apply fits256_iff_len. pose proof (bigint_minimal d Hd). unfold max_int_bytes in Hl. lia.
 Qed.
 
-Lemma read_items_good rd : rd_good rd -> forall n lim bs l lim' rest, bytes_ok bs ->
+Lemma read_items_good prot rd : rd_good prot rd -> forall n lim bs l lim' rest, bytes_ok bs ->
   read_items rd n lim bs = Some (l, lim', rest) ->
-  Forall item_wf l /\ bytes_ok rest /\ (length (enc_list l) + length rest <= length bs)%nat.
+  Forall (item_wf_g prot) l /\ bytes_ok rest /\ (length (enc_list l) + length rest <= length bs)%nat.
 Proof.
   intros Hrd n. induction n as [|n IH]; intros lim bs l lim' rest Hb H; cbn [read_items] in H.
   - inv H. cbn [enc_list length]. split; [constructor|]. split; [assumption|lia].
@@ -755,8 +997,8 @@ Proof.
   - constructor; [exact Hk|constructor].
   - inv Hf. case_if; cbn [map fst]; constructor; auto.
 Qed.
-Lemma pairs_wf_map_add acc k v :
-  pairs_wf acc -> valid_key k = true -> item_wf k -> item_wf v -> pairs_wf (map_add acc k v).
+Lemma pairs_wf_map_add prot acc k v :
+  pairs_wf prot acc -> valid_key k = true -> item_wf_g prot k -> item_wf_g prot v -> pairs_wf prot (map_add acc k v).
 Proof.
   intros [Hf Hd] Hvk Hk Hv. split.
   - clear Hd. induction acc as [|[k' v'] t IH]; cbn [map_add].
@@ -776,9 +1018,9 @@ Proof.
   - case_if; cbn [enc_pairs]; rewrite !app_length in *; lia.
 Qed.
 
-Lemma read_pairs_good rd : rd_good rd -> forall n acc lim bs l lim' rest, bytes_ok bs -> pairs_wf acc ->
+Lemma read_pairs_good prot rd : rd_good prot rd -> forall n acc lim bs l lim' rest, bytes_ok bs -> pairs_wf prot acc ->
   read_pairs rd n acc lim bs = Some (l, lim', rest) ->
-  pairs_wf l /\ bytes_ok rest /\ (length (enc_pairs l) + length rest <= length (enc_pairs acc) + length bs)%nat.
+  pairs_wf prot l /\ bytes_ok rest /\ (length (enc_pairs l) + length rest <= length (enc_pairs acc) + length bs)%nat.
 Proof.
   intros Hrd n. induction n as [|n IH]; intros acc lim bs l lim' rest Hb Hacc H; cbn [read_pairs] in H.
   - inv H. split; [assumption|]. split; [assumption|lia].
@@ -809,11 +1051,12 @@ Proof.
     case_if_in H; [|discriminate]. apply IH in H. pose proof (length_map_add acc k v). lia.
 Qed.
 
-Lemma read_case_good rd t lim r i lim' rest : rd_good rd -> bytes_ok r ->
-  read_case rd t lim r i lim' rest ->
-  item_wf i /\ bytes_ok rest /\ (length (enc_item i) + length rest <= S (length r))%nat.
+Lemma read_case_good prot rd t lim r i lim' rest : rd_good prot rd -> bytes_ok r ->
+  read_case prot rd t lim r i lim' rest ->
+  item_wf_g prot i /\ bytes_ok rest /\ (length (enc_item i) + length rest <= S (length r))%nat.
 Proof.
-  intros Hrd Hb H. destruct H as [? ? ? ?|b ? E ? ?|d ? E ? ?|d ? E ? ?|d ? E ? ?|n r' l ? E ? E2 ?|n r' l ? E ? E2 ?|n r' l ? E ? E2 ?]; subst.
+  intros Hrd Hb H. destruct H as [? ? ? ?|b ? E ? ?|d ? E ? ?|d ? E ? ?|d ? E ? ?|n r' l ? E ? E2 ?|n r' l ? E ? E2 ?|n r' l ? E ? E2 ?
+                                 |? ? ? ? ?|p ? ? E ? ?|? ? ? ? ?]; subst.
   - split; [constructor|]. split; [assumption|]. cbn [enc_item length]. lia.
   - apply read_bool_lax_some in E as [x ->]. inv Hb. split; [constructor|]. split; [assumption|].
     cbn [enc_item write_bool length]. lia.
@@ -830,62 +1073,99 @@ Proof.
     split; [constructor; assumption|]. split; [assumption|]. cbn [enc_item length]. lia.
   - pose proof (read_varuint_some _ _ _ Hb E) as ([Hn0 _] & Hr' & _). pose proof (varuint_minimal _ _ _ Hb E) as Hm.
     pose proof (read_items_budget_len rd _ _ _ _ _ _ E2) as Hlen.
-    apply (read_items_good rd Hrd) in E2 as (Hf & Hr & Hl); [|assumption].
+    apply (read_items_good prot rd Hrd) in E2 as (Hf & Hr & Hl); [|assumption].
     split; [constructor; assumption|]. split; [assumption|].
     rewrite enc_item_array. cbn [length]. rewrite app_length, Hlen, Z2Nat.id by lia. lia.
   - pose proof (read_varuint_some _ _ _ Hb E) as ([Hn0 _] & Hr' & _). pose proof (varuint_minimal _ _ _ Hb E) as Hm.
     pose proof (read_items_budget_len rd _ _ _ _ _ _ E2) as Hlen.
-    apply (read_items_good rd Hrd) in E2 as (Hf & Hr & Hl); [|assumption].
+    apply (read_items_good prot rd Hrd) in E2 as (Hf & Hr & Hl); [|assumption].
     split; [constructor; assumption|]. split; [assumption|].
     rewrite enc_item_struct. cbn [length]. rewrite app_length, Hlen, Z2Nat.id by lia. lia.
   - pose proof (read_varuint_some _ _ _ Hb E) as ([Hn0 _] & Hr' & _). pose proof (varuint_minimal _ _ _ Hb E) as Hm.
     pose proof (read_pairs_length rd _ _ _ _ _ _ _ E2) as Hlen. cbn [length] in Hlen.
-    apply (read_pairs_good rd Hrd) in E2 as ([Hf Hd] & Hr & Hl); [|assumption|split; constructor].
+    apply (read_pairs_good prot rd Hrd) in E2 as ([Hf Hd] & Hr & Hl); [|assumption|split; constructor].
     split; [constructor; assumption|]. split; [assumption|].
     rewrite enc_item_map. cbn [length enc_pairs] in *. rewrite app_length.
     pose proof (write_varuint_length_mono (Z.of_nat (length l)) n ltac:(lia)). lia.
+  - split; [constructor; reflexivity|]. split; [assumption|]. cbn [enc_item length]. lia.
+  - pose proof (read_varuint_some _ _ _ Hb E) as ([Hn0 Hn1] & Hr & _). pose proof (varuint_minimal _ _ _ Hb E) as Hm.
+    split; [constructor; [reflexivity|lia]|]. split; [assumption|]. cbn [enc_item length]. lia.
+  - split; [constructor; reflexivity|]. split; [assumption|]. cbn [enc_item length]. lia.
 Qed.
 
-Lemma read_item_good_all f : rd_good (read_item f).
+Lemma read_item_good_all prot f : rd_good prot (read_item prot f).
 Proof.
   induction f as [|f IH]; intros lim bs i lim' rest Hb H; [discriminate|].
   apply read_item_some in H as (f0 & t & r & lim0 & Ef & -> & -> & Hc). inv Ef. inv Hb.
-  apply (read_case_good _ _ _ _ _ _ _ IH) in Hc; [|assumption]. cbn [length]. exact Hc.
+  apply (read_case_good _ _ _ _ _ _ _ _ IH) in Hc; [|assumption]. cbn [length]. exact Hc.
 Qed.
 
 (* D. decoded values are well-formed and within the limits.  [<=] for the budget: Map.Add merges duplicate
    keys, so the item built can be smaller than the budget consumed. *)
+Theorem read_item_wf_gen prot fuel lim bs i lim' rest :
+  bytes_ok bs -> read_item prot fuel lim bs = Some (i, lim', rest) ->
+  item_wf_g prot i /\ (lim' + count_item i <= lim)%nat /\ bytes_ok rest /\ (length rest < length bs)%nat.
+Proof.
+  intros Hb H. pose proof (read_item_good_all prot fuel _ _ _ _ _ Hb H) as (Hw & Hr & _).
+  pose proof (read_item_budget _ _ _ _ _ _ _ H) as [Hc Hl]. auto.
+Qed.
 Theorem read_item_wf fuel lim bs i lim' rest :
-  bytes_ok bs -> read_item fuel lim bs = Some (i, lim', rest) ->
+  bytes_ok bs -> read_item false fuel lim bs = Some (i, lim', rest) ->
   item_wf i /\ (lim' + count_item i <= lim)%nat /\ bytes_ok rest /\ (length rest < length bs)%nat.
-Proof.
-  intros Hb H. pose proof (read_item_good_all fuel _ _ _ _ _ Hb H) as (Hw & Hr & _).
-  pose proof (read_item_budget _ _ _ _ _ _ H) as [Hc Hl]. auto.
-Qed.
-(* the canonical encoding of the decoded item is never longer than the bytes that were consumed *)
-Theorem read_item_enc_length fuel lim bs i lim' rest :
-  bytes_ok bs -> read_item fuel lim bs = Some (i, lim', rest) ->
+Proof. apply read_item_wf_gen. Qed.
+Theorem read_item_wf_p fuel lim bs i lim' rest :
+  bytes_ok bs -> read_item true fuel lim bs = Some (i, lim', rest) ->
+  item_wf_p i /\ (lim' + count_item i <= lim)%nat /\ bytes_ok rest /\ (length rest < length bs)%nat.
+Proof. apply read_item_wf_gen. Qed.
+(* the canonical encoding of the decoded item is never longer than the bytes that were consumed (both modes) *)
+Theorem read_item_enc_length prot fuel lim bs i lim' rest :
+  bytes_ok bs -> read_item prot fuel lim bs = Some (i, lim', rest) ->
   (length (enc_item i) + length rest <= length bs)%nat.
-Proof. intros Hb H. apply (read_item_good_all fuel _ _ _ _ _ Hb H). Qed.
+Proof. intros Hb H. apply (read_item_good_all prot fuel _ _ _ _ _ Hb H). Qed.
 
-Theorem deserialize_wf bs i : bytes_ok bs -> deserialize bs = Some i -> item_wf i.
+(* the stream reader: [dec_wf], count bound and minimality *)
+Theorem read_item_dec_wf prot bs i rest :
+  bytes_ok bs -> read_item_dec prot bs = Some (i, rest) ->
+  item_wf_g prot i /\ (count_item i <= max_items)%nat /\ bytes_ok rest.
 Proof.
-  unfold deserialize. intros Hb. destruct (read_item (S (length bs)) max_items bs) as [[[x l] r]|] eqn:E; [|discriminate].
-  intros H; inv H. eapply read_item_wf; eauto.
+  intros Hb H. apply read_item_dec_some in H as [l0 H]. apply read_item_wf_gen in H; [|assumption].
+  destruct H as (Hw & Hc & Hr & _). split; [assumption|]. split; [lia|assumption].
 Qed.
+Theorem read_item_dec_minimal prot bs i rest :
+  bytes_ok bs -> read_item_dec prot bs = Some (i, rest) -> (length (enc_item i) + length rest <= length bs)%nat.
+Proof. intros Hb H. apply read_item_dec_some in H as [l0 H]. eapply read_item_enc_length; eauto. Qed.
+(* canonical re-reading from a stream: the canonical encoding followed by anything gives the item and that rest *)
+Theorem read_item_dec_canonical prot bs i rest rest' :
+  bytes_ok bs -> read_item_dec prot bs = Some (i, rest) -> read_item_dec prot (enc_item i ++ rest') = Some (i, rest').
+Proof. intros Hb H. apply read_item_dec_wf in H as (Hw & Hc & _); [|assumption]. apply read_item_dec_enc; assumption. Qed.
+
+Theorem deserialize_gen_wf prot bs i : bytes_ok bs -> deserialize_gen prot bs = Some i -> item_wf_g prot i.
+Proof.
+  unfold deserialize_gen. intros Hb. destruct (read_item prot (S (length bs)) max_items bs) as [[[x l] r]|] eqn:E; [|discriminate].
+  intros H; inv H. eapply read_item_wf_gen; eauto.
+Qed.
+Theorem deserialize_wf bs i : bytes_ok bs -> deserialize bs = Some i -> item_wf i.
+Proof. apply deserialize_gen_wf. Qed.
+Theorem deserialize_wf_p bs i : bytes_ok bs -> deserialize_gen true bs = Some i -> item_wf_p i.
+Proof. apply deserialize_gen_wf. Qed.
 
 (* E. decode_canonical: an input within MaxSize that Deserialize accepts yields an item that Serialize accepts,
    whose encoding is not longer than the input and decodes to the same item. *)
+Theorem deserialize_gen_canonical prot bs i :
+  bytes_ok bs -> Z.of_nat (length bs) <= max_size -> deserialize_gen prot bs = Some i ->
+  exists bs', serialize_gen prot i = Some bs' /\ deserialize_gen prot bs' = Some i /\ (length bs' <= length bs)%nat.
+Proof.
+  intros Hb Hs H. pose proof (deserialize_gen_wf _ _ _ Hb H) as Hwf. pose proof (deserialize_gen_limits _ _ _ H) as Hc.
+  unfold deserialize_gen in H. destruct (read_item prot (S (length bs)) max_items bs) as [[[x l] r]|] eqn:E; [|discriminate].
+  inv H. pose proof (read_item_enc_length _ _ _ _ _ _ _ Hb E) as Hl.
+  exists (enc_item i). assert (serialize_gen prot i = Some (enc_item i)) as Hser
+    by (apply serialize_gen_ok; [apply wf_mode_ok; assumption|lia|lia]).
+  split; [exact Hser|]. split; [apply deserialize_gen_serialize; assumption|lia].
+Qed.
 Theorem deserialize_canonical bs i :
   bytes_ok bs -> Z.of_nat (length bs) <= max_size -> deserialize bs = Some i ->
   exists bs', serialize i = Some bs' /\ deserialize bs' = Some i /\ (length bs' <= length bs)%nat.
-Proof.
-  intros Hb Hs H. pose proof (deserialize_wf _ _ Hb H) as Hwf. pose proof (deserialize_limits _ _ H) as Hc.
-  unfold deserialize in H. destruct (read_item (S (length bs)) max_items bs) as [[[x l] r]|] eqn:E; [|discriminate].
-  inv H. pose proof (read_item_enc_length _ _ _ _ _ _ Hb E) as Hl.
-  exists (enc_item i). assert (serialize i = Some (enc_item i)) as Hser by (apply serialize_ok; lia).
-  split; [exact Hser|]. split; [apply deserialize_serialize; assumption|lia].
-Qed.
+Proof. apply deserialize_gen_canonical. Qed.
 (* without the size side condition: whenever the decoded item serialises at all, it decodes back to itself *)
 Theorem deserialize_canonical_weak bs bs' i :
   bytes_ok bs -> deserialize bs = Some i -> serialize i = Some bs' -> deserialize bs' = Some i.
@@ -904,7 +1184,7 @@ Example ex_item_wf : item_wf ex_item.
 Proof.
   assert (item_wf (IArray [IStruct [IBool true; IAny; IBuffer [1; 2; 3]]; IInt (- 2 ^ 255)])) as Harr.
   { repeat (constructor; try (vm_compute; (reflexivity || discriminate || lia))). }
-  unfold ex_item. apply wf_map.
+  unfold item_wf, ex_item in *. apply wf_map.
   - repeat (constructor; try exact Harr; try (vm_compute; (reflexivity || discriminate || lia))).
   - cbn [map fst keys_distinct]. repeat (split || constructor).
 Qed.
@@ -956,11 +1236,45 @@ Example ex_serialize_limits :
   end.
 Proof. split; [|split]; vm_compute; reflexivity. Qed.
 
-Print Assumptions ser_spec.
-Print Assumptions read_item_enc.
+(* --- protected mode --- *)
+Definition ex_item_p : item := IArray [IInterop; IPointer 7; IInvalid; IMap [(IInt 1, IStruct [IPointer 300; IAny])]].
+Example ex_item_p_wf : item_wf_p ex_item_p /\ ~ item_wf ex_item_p /\ plain ex_item_p = false.
+Proof.
+  split; [|split; [|reflexivity]].
+  - unfold item_wf_p, ex_item_p.
+    repeat (constructor; try (vm_compute; (reflexivity || discriminate || lia))); cbn [fst snd];
+      repeat (constructor; try (vm_compute; (reflexivity || discriminate || lia))).
+  - intros H. apply item_wf_plain in H. discriminate.
+Qed.
+Example ex_item_p_roundtrip :
+  serialize ex_item_p = None /\ serialize_gen true ex_item_p = Some (enc_item ex_item_p) /\
+  serialize_prot ex_item_p = [64; 4; 96; 16; 7; 255; 72; 1; 33; 1; 1; 65; 2; 16; 253; 44; 1; 0] /\
+  deserialize_gen true (serialize_prot ex_item_p) = Some ex_item_p /\
+  deserialize (serialize_prot ex_item_p) = None.
+Proof. repeat split; vm_compute; reflexivity. Qed.
+(* the three protected kinds are refused in normal mode by both directions *)
+Example ex_protected_refused :
+  deserialize [96] = None /\ deserialize [16; 7] = None /\ deserialize [255] = None /\
+  deserialize_gen true [96] = Some IInterop /\ deserialize_gen true [16; 7] = Some (IPointer 7) /\
+  deserialize_gen true [255] = Some IInvalid /\
+  serialize IInterop = None /\ serialize (IPointer 7) = None /\ serialize IInvalid = None.
+Proof. repeat split; vm_compute; reflexivity. Qed.
+(* Serialize(item, true) replaces a failure (2049 items) by the Invalid marker; the pointer position is a var-uint
+   and may be read in a non-minimal form *)
+Example ex_prot_total :
+  serialize_prot (IArray (repeat IInterop 2048)) = [255] /\
+  deserialize_gen true [16; 253; 7; 0] = Some (IPointer 7) /\ serialize_prot (IPointer 7) = [16; 7].
+Proof. split; [|split]; vm_compute; reflexivity. Qed.
+
+Print Assumptions ser_spec_gen.
+Print Assumptions serialize_spec.
+Print Assumptions serialize_prot_total.
+Print Assumptions read_item_enc_gen.
 Print Assumptions deserialize_serialize.
-Print Assumptions read_item_wf.
+Print Assumptions read_item_wf_gen.
 Print Assumptions deserialize_limits.
-Print Assumptions deserialize_canonical.
+Print Assumptions deserialize_gen_canonical.
+Print Assumptions read_item_dec_consumes.
+Print Assumptions read_item_dec_minimal.
 Print Assumptions read_item_fuel_mono.
 Print Assumptions read_item_fuel_enough.
